@@ -30,6 +30,18 @@ def margin(self, sample, clf):
     return 1 if abs(float(sample[0]) - clf.t_) <= 1.0 else 0
 
 
+def margin_svc(sample, clf):
+    """independent statement of the library's default margin inclusion signal for a linear sklearn SVC:
+    1 iff |w . x + intercept / w[1]| <= 1 (the documented function for sklearn.svm.SVC)"""
+    w = np.asarray(clf.coef_[0], dtype=float)
+    b = float(np.asarray(clf.intercept_)[0]) / float(w[1])
+    return 1 if abs(float(np.dot(w, np.asarray(sample, dtype=float))) + b) <= 1 else 0
+
+
+def mbit(sample, clf):
+    return margin_svc(sample, clf) if hasattr(clf, "coef_") else margin(None, sample, clf)
+
+
 def fold_table(n, k):
     f = [0] * n
     for j, (_, te) in enumerate(KFold(n_splits=k, random_state=42, shuffle=True).split(np.zeros((n, 1)))):
@@ -47,7 +59,7 @@ def ref_bits(df, clf, k):
         c = clone(clf).fit(X.iloc[tr], y.iloc[tr].values.ravel())
         pred = c.predict(X.iloc[te])
         for pos, i in enumerate(te):
-            rows[i] = [margin(None, X.iloc[i].to_numpy(), c), int(pred[pos] == y.iloc[i])]
+            rows[i] = [mbit(X.iloc[i].to_numpy(), c), int(pred[pos] == y.iloc[i])]
     return rows
 
 
@@ -69,22 +81,68 @@ def sample_row(rng, inmargin, label_correct=None):
     return row
 
 
+def svc_row(rng, clf, inmargin, label_correct=None, want_y=None):
+    """a point whose default-margin bit under the fitted SVC is the requested one (rejection sampling); labelled rows
+    alternate their label (want_y) so that every cross-validation fold of a later reference sees both classes"""
+    def pred_ok(x):
+        if label_correct is None or want_y is None:
+            return True
+        pred = int(clf.predict(pd.DataFrame([{"x0": x[0], "x1": x[1]}]))[0])
+        return pred == (want_y if label_correct else 1 - want_y)
+    x = None
+    for need_margin in (True, False):          # the label's parity matters more than the requested margin bit
+        for _ in range(600):
+            x = [round(rng.uniform(-5, 5), 3), round(rng.uniform(-5, 5), 3)]
+            if need_margin and margin_svc(x, clf) != int(bool(inmargin)):
+                continue
+            if pred_ok(x):
+                break
+        else:
+            continue
+        break
+    row = {"x0": x[0], "x1": x[1]}
+    if label_correct is not None:
+        pred = int(clf.predict(pd.DataFrame([row]))[0])
+        # the label's parity wins over the requested correctness bit (the event records the bit that resulted)
+        row["y"] = want_y if want_y is not None else (pred if label_correct else 1 - pred)
+    return row
+
+
 def run(p, script, seed=0):
     """p: sensitivity, k, L (or None), n0, clf_mode; script items:
        ("update", m) ("update2",) ("label", m, c) ("label_badcols", m, c) ("label2",)"""
     import random
     from menelaus.concept_drift import MD3
     rng = random.Random(seed)
-    clf = ThresholdClf(p["clf_mode"]).fit(np.zeros((2, 2)), [0, 1])
-    if p["clf_mode"] == "mean":
-        clf.t_ = 0.0
-    # reference batch
-    rows = []
-    for i in range(p["n0"]):
-        rows.append(sample_row(rng, rng.random() < p["pmargin"], rng.random() < p["pacc"]))
-    ref = pd.DataFrame(rows)
-    det = MD3(clf=clf, margin_calculation_function=margin, sensitivity=p["sensitivity"], k=p["k"],
-              oracle_data_length_required=p["L"])
+    svc = p["clf_mode"] == "svc"
+    if svc:
+        # the library's defaults: a fitted linear sklearn SVC and the built-in margin inclusion signal
+        from sklearn.svm import SVC
+        a, b = rng.uniform(-1, 1), rng.choice([-1, 1]) * rng.uniform(0.4, 1.2)
+        rows = []
+        for i in range(p["n0"]):
+            x = [round(rng.uniform(-4, 4), 3), round(rng.uniform(-4, 4), 3)]
+            y = int(a * x[0] + b * x[1] > 0)
+            rows.append({"x0": x[0], "x1": x[1], "y": y if rng.random() < p["pacc"] else 1 - y})
+        for i in (0, 1, 2, 3):
+            rows[i]["y"] = i % 2       # both classes occur
+        ref = pd.DataFrame(rows)
+        clf = SVC(kernel="linear").fit(ref[["x0", "x1"]], ref["y"].values)
+        def mk(m, c=None):
+            return svc_row(rng, clf, m, c, len(pending) % 2)      # accepted labels alternate between the classes
+        det = MD3(clf=clf, sensitivity=p["sensitivity"], k=p["k"], oracle_data_length_required=p["L"])
+    else:
+        clf = ThresholdClf(p["clf_mode"]).fit(np.zeros((2, 2)), [0, 1])
+        if p["clf_mode"] == "mean":
+            clf.t_ = 0.0
+        # reference batch
+        rows = []
+        for i in range(p["n0"]):
+            rows.append(sample_row(rng, rng.random() < p["pmargin"], rng.random() < p["pacc"]))
+        ref = pd.DataFrame(rows)
+        mk = lambda m, c=None: sample_row(rng, m, c)
+        det = MD3(clf=clf, margin_calculation_function=margin, sensitivity=p["sensitivity"], k=p["k"],
+                  oracle_data_length_required=p["L"])
     det.set_reference(ref, target_name="y")
     L = p["L"] if p["L"] is not None else p["n0"]
     ev = [dict(op="set_reference", rows=ref_bits(ref, clf, p["k"]), raised="None", m=0, c=0, nrows=p["n0"], colsok=True,
@@ -96,17 +154,20 @@ def run(p, script, seed=0):
         e = {"op": "update" if kind.startswith("update") else "label", "m": 0, "c": 0, "nrows": 1, "colsok": True, "newref": []}
         try:
             if kind == "update":
-                e["m"] = s[1]
-                det.update(pd.DataFrame([sample_row(rng, bool(s[1]))]))
+                row = mk(bool(s[1]))
+                e["m"] = mbit([row["x0"], row["x1"]], clf) if svc else s[1]
+                det.update(pd.DataFrame([row]))
             elif kind == "update2":
                 e["nrows"] = 2
-                det.update(pd.DataFrame([sample_row(rng, True), sample_row(rng, False)]))
+                det.update(pd.DataFrame([mk(True), mk(False)]))
             elif kind == "label":
-                row = sample_row(rng, bool(s[1]), bool(s[2]))
+                row = mk(bool(s[1]), bool(s[2]))
                 was_waiting = det.waiting_for_oracle
                 n_before = 0 if det.oracle_data is None else len(det.oracle_data)
                 det.give_oracle_label(pd.DataFrame([row]))
-                e["m"], e["c"] = s[1], s[2]
+                e["m"], e["c"] = (mbit([row["x0"], row["x1"]], clf) if svc else s[1]), s[2]
+                if svc:
+                    e["c"] = int(int(clf.predict(pd.DataFrame([{"x0": row["x0"], "x1": row["x1"]}]))[0]) == row["y"])
                 if was_waiting and n_before + 1 == L:
                     # the labelled samples became the reference: their bits under the fold clones
                     newref = pd.DataFrame(pending + [row])
@@ -116,13 +177,13 @@ def run(p, script, seed=0):
                 else:
                     pending.append(row)
             elif kind == "label_badcols":
-                row = sample_row(rng, bool(s[1]), bool(s[2]))
+                row = mk(bool(s[1]), bool(s[2]))
                 row["z"] = row.pop("x1")
                 e["colsok"] = False
                 det.give_oracle_label(pd.DataFrame([row]))
             elif kind == "label2":
                 e["nrows"] = 2
-                det.give_oracle_label(pd.DataFrame([sample_row(rng, True, True), sample_row(rng, False, True)]))
+                det.give_oracle_label(pd.DataFrame([mk(True, True), mk(False, True)]))
         except Exception as ex:  # noqa
             raised = type(ex).__name__
         e["raised"] = raised
